@@ -455,7 +455,7 @@ func (e *Exec) assume(c *Term) {
 
 // model extraction for scenarios
 func (e *Exec) scenarioFromModel(kind, label string, m *Model) *Scenario {
-	sc := &Scenario{Property: e.h.property, Harness: e.h.name, Kind: kind, Label: label,
+	sc := &Scenario{Property: e.h.property, Harness: harnessFunc(e.h.name), Kind: kind, Label: label,
 		Picks: map[string]int{}, Values: map[string]string{}, Solver: "model-eval", Observe: map[string]string{},
 		Params: e.h.params, Tier: e.h.tier}
 	for _, p := range e.picks {
@@ -490,7 +490,7 @@ func (e *Exec) scenarioFromModel(kind, label string, m *Model) *Scenario {
 }
 
 func (e *Exec) currentScenario(kind, label string) *Scenario {
-	sc := &Scenario{Property: e.h.property, Harness: e.h.name, Kind: kind, Label: label,
+	sc := &Scenario{Property: e.h.property, Harness: harnessFunc(e.h.name), Kind: kind, Label: label,
 		Picks: map[string]int{}, Values: map[string]string{}, Solver: e.solver.name, Observe: map[string]string{},
 		Params: e.h.params, Tier: e.h.tier}
 	for _, p := range e.picks {
@@ -534,6 +534,13 @@ func (e *Exec) currentScenario(kind, label string) *Scenario {
 	}
 	sc.MapOrders = append([]string(nil), e.mapOrders...)
 	return sc
+}
+
+func harnessFunc(key string) string {
+	if i := strings.Index(key, "#"); i > 0 {
+		return key[:i]
+	}
+	return key
 }
 
 func constText(t *Term) string {
